@@ -120,50 +120,26 @@ func checkC20(r *core.Run, p *core.Program) {
 	if tr == nil {
 		r.Undecided("C20.tracker", "iterator.RootObjectIterator.addLocalReference")
 	} else {
-		// kind guard before TypedPointerOfRV
-		var guardPos, ptrPos token.Pos
-		kinds := map[string]bool{}
-		for _, st := range tr.Decl.Body.List {
-			if sw, ok := st.(*ast.SwitchStmt); ok && sw.Tag != nil && strings.HasSuffix(exprStr(sw.Tag), ".Kind()") {
-				for _, c := range switchTable(info, sw) {
-					if c.Default {
-						hasRet := false
-						for _, b := range c.Body {
-							if ret, ok := b.(*ast.ReturnStmt); ok && len(ret.Results) == 1 {
-								if cv := constVal(info, ret.Results[0]); cv != nil && cv.Kind() == constant.Bool && !constant.BoolVal(cv) {
-									hasRet = true
-								}
-							}
-						}
-						if hasRet {
-							guardPos = sw.Pos()
-						}
-						continue
-					}
-					for _, e := range c.Exprs {
-						if o := objOf(info, e); o != nil {
-							kinds[o.Name()] = true
-						}
-					}
-				}
-			}
-		}
+		// kind guard before TypedPointerOfRV: the statements in front of the call are evaluated for every
+		// reflect.Kind; the kinds that get through must have pointer identity and include pointer, slice and map
+		var ptrPos token.Pos
 		inspectCalls(info, tr.Decl.Body, func(call *ast.CallExpr, c *types.Func) {
-			if c != nil && c.Name() == "TypedPointerOfRV" {
+			if c != nil && c.Name() == "TypedPointerOfRV" && !ptrPos.IsValid() {
 				ptrPos = call.Pos()
 			}
 		})
-		okKinds := true
-		for k := range kinds {
+		passing, decidable := kindsReaching(p, info, tr, ptrPos)
+		okKinds := decidable && ptrPos.IsValid()
+		for k := range passing {
 			switch k {
 			case "Ptr", "Pointer", "Slice", "Map", "Chan", "Func", "UnsafePointer":
 			default:
 				okKinds = false
 			}
 		}
-		r.Check("C20.tracker", "addLocalReference|kind guard before taking the pointer", tr.Decl.Pos(), guardPos != token.NoPos && ptrPos != token.NoPos && guardPos < ptrPos && okKinds,
+		r.Check("C20.tracker", "addLocalReference|kind guard before taking the pointer", tr.Decl.Pos(), okKinds,
 			"the tracker must return false for kinds without pointer identity before it calls TypedPointerOfRV (reflect.Value.Pointer panics on arrays, structs and scalars)")
-		r.Check("C20.tracker", "addLocalReference|tracks pointers, slices and maps", tr.Decl.Pos(), (kinds["Ptr"] || kinds["Pointer"]) && kinds["Slice"] && kinds["Map"],
+		r.Check("C20.tracker", "addLocalReference|tracks pointers, slices and maps", tr.Decl.Pos(), (passing["Ptr"] || passing["Pointer"]) && passing["Slice"] && passing["Map"],
 			"the tracker ignores one of the kinds pointer, slice, map: values of that kind that are shared are duplicated and cyclic ones recurse forever")
 		// typed keys
 		tn := p.LookupType("iterator", "RootObjectIterator")
@@ -201,14 +177,36 @@ func checkC20(r *core.Run, p *core.Program) {
 		sig := f.Obj.Type().(*types.Signature)
 		_, isPtr := sig.Recv().Type().(*types.Pointer)
 		inc := false
-		ast.Inspect(f.Decl.Body, func(n ast.Node) bool {
-			if s, ok := n.(*ast.IncDecStmt); ok && s.Tok == token.INC {
-				if fv := fieldOf(info, s.X); fv != nil && fv.Name() == "nextMarkerName" {
-					inc = true
+		// the counter may be advanced in a pointer-receiver helper of the iterator that this method calls
+		bodies := []ast.Node{f.Decl.Body}
+		inspectCalls(info, f.Decl.Body, func(call *ast.CallExpr, c *types.Func) {
+			if c != nil && c.Pkg() == f.Pkg.Types && recvNamed(c) != nil && recvNamed(c) == recvNamed(f.Obj) {
+				if _, ptrRecv := c.Type().(*types.Signature).Recv().Type().(*types.Pointer); ptrRecv {
+					if hd := p.FuncDecl(c); hd != nil && hd.Body != nil {
+						bodies = append(bodies, hd.Body)
+					}
 				}
 			}
-			return true
 		})
+		for _, body := range bodies {
+			ast.Inspect(body, func(n ast.Node) bool {
+				switch s := n.(type) {
+				case *ast.IncDecStmt:
+					if fv := fieldOf(info, s.X); s.Tok == token.INC && fv != nil && fv.Name() == "nextMarkerName" {
+						inc = true
+					}
+				case *ast.AssignStmt:
+					if len(s.Lhs) == 1 && s.Tok == token.ADD_ASSIGN {
+						if fv := fieldOf(info, s.Lhs[0]); fv != nil && fv.Name() == "nextMarkerName" {
+							if k, isC := constInt(info, s.Rhs[0]); isC && k == 1 {
+								inc = true
+							}
+						}
+					}
+				}
+				return true
+			})
+		}
 		r.Check("C20.tracker", "getNamedLocalReference|marker numbers advance", f.Decl.Pos(), isPtr && inc, "each newly named shared value must get the next number from a counter stored through a pointer receiver: otherwise two shared values get the same marker ID")
 	} else {
 		r.Undecided("C20.tracker", "iterator.RootObjectIterator.getNamedLocalReference")
@@ -289,4 +287,151 @@ func c20MarkerThenRef(info *types.Info, f *fn) bool {
 		}
 	}
 	return markerFalse && refTrue
+}
+
+// kindsReaching evaluates, for each reflect.Kind, the top-level statements of f that precede pos: guards of the
+// forms `switch v.Kind() { case …: …; default: return … }` and `if <boolean combination of comparisons of
+// v.Kind() (or a local holding it) with Kind constants> { …return }`. It returns the kinds for which no guard
+// leaves the function, and whether every statement in front of pos could be evaluated.
+func kindsReaching(p *core.Program, info *types.Info, f *fn, pos token.Pos) (map[string]bool, bool) {
+	out := map[string]bool{}
+	rp := p.DepPkg("reflect")
+	if rp == nil {
+		return out, false
+	}
+	var kinds []*types.Const
+	for _, n := range rp.Scope().Names() {
+		if c, ok := rp.Scope().Lookup(n).(*types.Const); ok {
+			if nt := namedOf(c.Type()); nt != nil && nt.Obj().Name() == "Kind" {
+				kinds = append(kinds, c)
+			}
+		}
+	}
+	isKindExpr := func(e ast.Expr) bool {
+		e = stripParens(e)
+		if id, ok := e.(*ast.Ident); ok {
+			if init := singleInit(info, f, info.ObjectOf(id)); init != nil {
+				e = stripParens(init)
+			}
+		}
+		call, ok := e.(*ast.CallExpr)
+		if !ok {
+			return false
+		}
+		c := callee(info, call)
+		return c != nil && c.Name() == "Kind" && typeIs(recvType(c), "reflect", "Value")
+	}
+	leaves := func(body []ast.Stmt) bool {
+		if len(body) == 0 {
+			return false
+		}
+		_, isRet := body[len(body)-1].(*ast.ReturnStmt)
+		return isRet
+	}
+	decidable := true
+	for _, k := range kinds {
+		var eval func(e ast.Expr) (bool, bool)
+		eval = func(e ast.Expr) (bool, bool) {
+			e = stripParens(e)
+			switch x := e.(type) {
+			case *ast.UnaryExpr:
+				if x.Op == token.NOT {
+					v, ok := eval(x.X)
+					return !v, ok
+				}
+			case *ast.BinaryExpr:
+				switch x.Op {
+				case token.LAND, token.LOR:
+					a, ok1 := eval(x.X)
+					b, ok2 := eval(x.Y)
+					if x.Op == token.LAND {
+						return a && b, ok1 && ok2
+					}
+					return a || b, ok1 && ok2
+				case token.EQL, token.NEQ:
+					var other ast.Expr
+					if isKindExpr(x.X) {
+						other = x.Y
+					} else if isKindExpr(x.Y) {
+						other = x.X
+					}
+					if other != nil {
+						if c, ok := objOf(info, other).(*types.Const); ok {
+							eq := constant.Compare(c.Val(), token.EQL, k.Val())
+							if x.Op == token.NEQ {
+								return !eq, true
+							}
+							return eq, true
+						}
+					}
+				}
+			}
+			return false, false
+		}
+		reaches := true
+		for _, st := range f.Decl.Body.List {
+			if pos.IsValid() && st.Pos() > pos {
+				break
+			}
+			if pos.IsValid() && st.Pos() <= pos && pos <= st.End() {
+				break // the statement containing the call
+			}
+			switch x := st.(type) {
+			case *ast.SwitchStmt:
+				if x.Tag == nil || !isKindExpr(x.Tag) {
+					continue
+				}
+				var chosen *ast.CaseClause
+				var deflt *ast.CaseClause
+				for _, c := range x.Body.List {
+					cc := c.(*ast.CaseClause)
+					if cc.List == nil {
+						deflt = cc
+					}
+					for _, e := range cc.List {
+						if c, ok := objOf(info, e).(*types.Const); ok && constant.Compare(c.Val(), token.EQL, k.Val()) {
+							chosen = cc
+						}
+					}
+				}
+				if chosen == nil {
+					chosen = deflt
+				}
+				if chosen != nil && leaves(chosen.Body) {
+					reaches = false
+				}
+			case *ast.IfStmt:
+				mentionsKind := false
+				ast.Inspect(x.Cond, func(n ast.Node) bool {
+					if e, ok := n.(ast.Expr); ok && isKindExpr(e) {
+						mentionsKind = true
+					}
+					return true
+				})
+				if !mentionsKind {
+					continue
+				}
+				v, ok := eval(x.Cond)
+				if !ok {
+					decidable = false
+					continue
+				}
+				if v && leaves(x.Body.List) {
+					reaches = false
+				}
+				if !v && x.Else != nil {
+					if eb, ok := x.Else.(*ast.BlockStmt); ok && leaves(eb.List) {
+						reaches = false
+					}
+				}
+			}
+			if !reaches {
+				break
+			}
+		}
+		if reaches {
+			out[k.Name()] = true
+		}
+	}
+	return out, decidable
 }
